@@ -314,6 +314,9 @@ Qed.
 (* everything below holds for both variants of ArgumentRemover.change_argument_mapping               *)
 Section Variant.
 Variable rdel : bool.
+Variable kwfix : bool.
+Local Notation call_read := (Args.call_read kwfix).
+Local Notation change_site := (Args.change_site kwfix rdel).
 Local Notation change_map := (Args.change_map rdel).
 Local Notation apply_maps := (Args.apply_maps rdel).
 Local Notation change_call := (Args.change_call rdel).
@@ -1355,7 +1358,7 @@ Lemma render_read_gen d' c' r' :
   (c_ctor c' = true -> exists n rest dflt ps, c_args c' = n :: rest /\ d_args d' = (n, dflt) :: ps) ->
   call_read d' (c_implicit c') (c_ctor c') r' = Some c'.
 Proof.
-  destruct c' as [fn args kws st kst imp ct]. unfold call_render, call_read.
+  destruct c' as [fn args kws st kst imp ct]. unfold call_render, Args.call_read.
   cbn [c_fname c_args c_kws c_star c_kwstar c_implicit c_ctor]. intros Hr Hk Hx Hc. subst kst.
   destruct imp.
   - destruct ct; [discriminate|]. destruct args as [|a rest]; [discriminate|]. inversion Hr; subst. reflexivity.
@@ -1436,10 +1439,12 @@ Theorem text_roundtrip d cs implicit ctor r c d' c' r' b :
   call_read d' implicit ctor r' = Some c'.
 Proof.
   intros Hread Hd Hc Hrend Hside Hrecv Hb.
-  assert (c_implicit c = implicit /\ c_ctor c = ctor /\ c_kwstar c = None
-          /\ (ctor = true -> exists n dflt ps, d_args d = (n, dflt) :: ps /\ exists rest, c_args c = n :: rest)) as [Ci [Cc [Ck Cf]]].
-  { unfold call_read in Hread. destruct (is_some (r_kwstar r)) eqn:Ek; [discriminate|].
-    assert (r_kwstar r = None) as Ek' by (destruct (r_kwstar r); [discriminate|reflexivity]).
+  assert (c_kwstar c = None) as Ck.
+  { unfold bind, plain_call in Hb. destruct (c_kwstar c); [|reflexivity].
+    cbn [is_some negb] in Hb. rewrite andb_false_r in Hb. discriminate. }
+  assert (c_implicit c = implicit /\ c_ctor c = ctor
+          /\ (ctor = true -> exists n dflt ps, d_args d = (n, dflt) :: ps /\ exists rest, c_args c = n :: rest)) as [Ci [Cc Cf]].
+  { unfold Args.call_read in Hread. destruct (is_some (r_kwstar r) && negb kwfix); [discriminate|].
     destruct ctor.
     - destruct (d_args d) as [|[n dflt] ps] eqn:Ed; [discriminate|]. inversion Hread; subst c. cbn.
       repeat split; auto. intros _. exists n, dflt, ps. split; [reflexivity|]. eexists. reflexivity.
@@ -2353,14 +2358,14 @@ Qed.
    through an inheriting subclass is not reached                                                     *)
 Theorem site_preserve is_init d cs s d' r' c b :
   finder_finds is_init (ps_callee s) = true ->
-  apply_defs cs d = Some d' -> change_site rdel is_init d cs s = Some r' ->
+  apply_defs cs d = Some d' -> change_site is_init d cs s = Some r' ->
   call_read d (ps_implicit s) (ps_ctor s) (ps_call s) = Some c ->
   side_ok d cs c d' = true -> recv_ok d c d' = true -> bind d c = Some b ->
   exists c2 b', call_read d' (ps_implicit s) (ps_ctor s) r' = Some c2 /\ bind d' c2 = Some b'
     /\ (forall n, In n (names d) -> In n (names d') -> lookup n b' = lookup n b)
     /\ b_star b' = b_star b /\ b_kw b' = b_kw b /\ map fst (b_params b') = names d'.
 Proof.
-  intros Hf Hd Hs Hr Hside Hrecv Hb. unfold change_site in Hs. rewrite Hf, Hr in Hs.
+  intros Hf Hd Hs Hr Hside Hrecv Hb. unfold Args.change_site in Hs. rewrite Hf, Hr in Hs.
   destruct (change_call cs d c) as [c'|] eqn:Hc; [|discriminate].
   eapply preserve_text; eauto.
 Qed.
@@ -2371,7 +2376,7 @@ Lemma site_preserve_nonvacuous :
     /\ cs = [Reorder [0; 2; 1] (Some 11%N)]
     /\ s = mkPsite CClass false true (mkRend None 20%N [31]%N [(3, 32)]%N None None)
     /\ finder_finds true (ps_callee s) = true
-    /\ apply_defs cs d = Some d' /\ change_site rdel true d cs s = Some r'
+    /\ apply_defs cs d = Some d' /\ change_site true d cs s = Some r'
     /\ call_read d (ps_implicit s) (ps_ctor s) (ps_call s) = Some c
     /\ side_ok d cs c d' = true /\ recv_ok d c d' = true /\ bind d c = Some b
     /\ r' = mkRend None 20%N [32; 31]%N [] None None.
@@ -2382,7 +2387,7 @@ Lemma subclass_ctor_refuted :
   exists d cs s d' r' c c2 b b',
     s = mkPsite CSubclass false true (mkRend None 21%N [31; 32]%N [] None None)
     /\ apply_defs cs d = Some d' /\ valid_def d' = true
-    /\ change_site rdel true d cs s = Some r' /\ r' = ps_call s
+    /\ change_site true d cs s = Some r' /\ r' = ps_call s
     /\ call_read d false true (ps_call s) = Some c /\ bind d c = Some b
     /\ call_read d' false true r' = Some c2 /\ bind d' c2 = Some b'
     /\ lookup 2%N b = Some 31%N /\ lookup 2%N b' = Some 32%N.
